@@ -58,4 +58,21 @@ def fuzz(rng):
     return (cs, InitialCondition(3), ps, None, None)
 
 
+def reset_factor(conc, ref, crop_name):
+    """`crop.fCO2` as recomputed by the real season-start reset for a catalogue crop at concentration `conc`"""
+    from aquacrop.entities.crop import Crop
+    from aquacrop.entities.initParamVariables import InitialCondition
+    crop = Crop(crop_name, planting_date="05/01")
+    crop.CalendarType = 1
+    crop.fCO2 = None
+    co2 = stub(constant_conc=True, current_concentration=float(conc), ref_concentration=float(ref),
+               co2_data_processed=pd.Series([400.0], index=[2001]))
+    cs = stub(season_counter=0, sim_off_season=True, step_start_time=pd.Timestamp("2001-05-01"),
+              planting_dates=[pd.Timestamp("2001-05-01")])
+    ps = stub(CropChoices=["stub"], Soil=stub(nComp=3), Seasonal_Crop_List=[crop],
+              FieldMngt=stub(bunds=False, z_bund=0.0, bund_water=0.0), CO2=co2)
+    FUNC(cs, InitialCondition(3), ps, None, None)
+    return crop.fCO2
+
+
 from aquacrop.timestep.reset_initial_conditions import reset_initial_conditions as FUNC  # noqa: E402
